@@ -295,10 +295,15 @@ class SymInt:
     def concretize(self, why=''):
         en = eng()
         dom = en.domain(self.e)
-        if len(dom) > MAXDOM:
-            raise Unsupported('unbounded concretisation of a symbolic int (%s)' % why)
         if not dom:
             raise Abort('infeasible')
+        if len(dom) > MAXDOM:
+            # too many values to fork over: continue with three of them (under-approximation).  The run is marked
+            # incomplete - it can still find a (replayed) counterexample but can no longer conclude 'holds'.
+            en.sampled = 'concretisation for %s' % why
+            picks = sorted({dom[0], min(dom), max(dom)})
+            i = en.choose([self.e == v for v in picks])
+            return signed(picks[i])
         dom.sort()
         i = en.choose([self.e == v for v in dom])
         return signed(dom[i])
@@ -736,10 +741,85 @@ class SymBytes:
             raise Unsupported('decode of possibly non-ASCII symbolic bytes (harness must bound them < 0x80)')
         return make_atom('bytes', list(self.items))
 
+    _WS = (0x09, 0x0a, 0x0b, 0x0c, 0x0d, 0x20)
+
+    def _in(self, it, values):
+        if isinstance(it, int):
+            return it in values
+        return eng().branch(z3.Or(*[it == v for v in values]))
+
+    def _strip(self, chars, left, right):
+        vals = self._WS if chars is None else tuple(bytes(chars))
+        items = list(self.items)
+        if left:
+            while items and self._in(items[0], vals):
+                items.pop(0)
+        if right:
+            while items and self._in(items[-1], vals):
+                items.pop()
+        return SymBytes.make(items)
+
+    def strip(self, chars=None):
+        return self._strip(chars, True, True)
+
+    def lstrip(self, chars=None):
+        return self._strip(chars, True, False)
+
+    def rstrip(self, chars=None):
+        return self._strip(chars, False, True)
+
+    def find(self, sub, start=0, end=None):
+        if isinstance(sub, int):
+            sub = bytes([sub])
+        sub = bytes(sub)
+        items = self.items[start:end]
+        n = len(sub)
+        if n == 0:
+            return start
+        for i in range(len(items) - n + 1):
+            conds = []
+            ok = True
+            for a, b in zip(items[i:i + n], sub):
+                if isinstance(a, int):
+                    if a != b:
+                        ok = False
+                        break
+                else:
+                    conds.append(a == b)
+            if not ok:
+                continue
+            if not conds or eng().branch(z3.And(*conds) if len(conds) > 1 else conds[0]):
+                return start + i
+        return -1
+
+    def index(self, sub, start=0, end=None):
+        r = self.find(sub, start, end)
+        if r < 0:
+            raise ValueError('subsection not found')
+        return r
+
+    def __contains__(self, x):
+        if isinstance(x, (bytes, bytearray)):
+            return self.find(x) >= 0
+        if isinstance(x, SymInt):
+            return bool(Or(*[(x == (it if isinstance(it, int) else SymInt(z3.ZeroExt(W - 8, it), 8, True))) for it in self.items]))
+        return self.find(bytes([x])) >= 0
+
+    def startswith(self, prefix):
+        prefix = bytes(prefix)
+        return len(prefix) <= len(self.items) and bool(SymBytes.make(self.items[:len(prefix)]) == prefix)
+
+    def endswith(self, suffix):
+        suffix = bytes(suffix)
+        return len(suffix) <= len(self.items) and (len(suffix) == 0 or bool(SymBytes.make(self.items[-len(suffix):]) == suffix))
+
+    def count(self, sub):
+        raise Unsupported('bytes.count on symbolic bytes')
+
     def _nosup(self, *a, **k):
         raise Unsupported('bytes operation on symbolic bytes')
 
-    split = rsplit = strip = lstrip = rstrip = find = rfind = index = startswith = endswith = _nosup
+    split = rsplit = rfind = rindex = _nosup
     partition = rpartition = hex = _nosup
 
 
